@@ -80,6 +80,10 @@ def run(c):
                         c.finding_or_violation(canon("the target ran although the callback was never invoked"), rep_)
                     if lo["calls"] and (lo.get("pid_is_init") or lo.get("exe_is_target") or lo.get("marker_at_callback")):
                         c.finding_or_violation(canon("at the callback the pid is not the blocked, not yet exec'ed child", seen={k: lo.get(k) for k in ("pid_is_init", "exe_is_target", "marker_at_callback")}), rep_)
+                    if l["cb"] != "none" and lo["calls"] == 0 and lo["status"] != 8:
+                        c.finding_or_violation(canon("the launch passed the gate (an exec result came back) although the callback was never invoked", status=lo["status"]), rep_)
+                    if l["cb"] == "fail" and lo["status"] != 8:
+                        c.finding_or_violation(canon("a refused launch produced an exec result instead of a launch error", status=lo["status"]), rep_)
                     if l["cb"] == "fail" and lo["target_ran"]:
                         c.finding_or_violation(canon("the target ran although the callback refused"), rep_)
                 else:
